@@ -3,6 +3,7 @@
 -/
 import Fsel.Model.Json
 import Fsel.Model.Main
+import Fsel.Model.Caps
 import Fsel.Lemmas.Glob
 
 namespace Fsel
@@ -81,6 +82,10 @@ def applyFact (nl : NodeLine) (kv : String) : NodeLine :=
     else if k == "empty" then { nl with e := { e with dirEmpty := some (v == "1") } }
     else if k == "xa" then { nl with e := { e with hasXattrs := some (v == "1") } }
     else if k == "caps" then { nl with e := { e with caps := (unhex v).getD [], hasCapsXattr := some true } }
+    else if k == "capsraw" then
+      match unhexBytes v.toList with
+      | some bs => { nl with e := { e with caps := parseCaps (bs.map UInt8.toNat), hasCapsXattr := some true } }
+      | none => nl
     else if k == "nocaps" then { nl with e := { e with hasCapsXattr := some false } }
     else if k == "xattr" then
       match v.splitOn ":" with
@@ -243,6 +248,12 @@ def handleLine (st : DriverState) (line : String) : DriverState × String :=
                   mode_group_write k, mode_group_exec k, mode_group_all k, mode_other_read k, mode_other_write k,
                   mode_other_exec k, mode_other_all k, mode_suid k, mode_sgid k, mode_is_pipe k,
                   mode_is_char_device k, mode_is_block_device k, mode_is_socket k].map fun b => if b then '1' else '0')
+            | none => "bad-op")
+        | _ => (st, "bad-op")
+      else if name == "caps" then
+        match as with
+        | [h] => (st, match unhexBytes (String.ofList h).toList with
+            | some bs => hexOfStr (parseCaps (bs.map UInt8.toNat))
             | none => "bad-op")
         | _ => (st, "bad-op")
       else if name == "get_value" then
